@@ -178,6 +178,36 @@ mod ty {
         pub o: Option<i64>,
     }
     #[derive(Deserialize, Debug)]
+    pub struct SOptNested {
+        pub t: Option<Inner>,
+    }
+    #[derive(Deserialize, Debug)]
+    pub struct SOptVec {
+        pub v: Option<Vec<i64>>,
+    }
+    #[derive(Deserialize, Debug)]
+    pub struct SOptMap {
+        pub m: Option<BTreeMap<String, i64>>,
+    }
+    #[derive(Deserialize, Debug)]
+    pub struct SOptEnum2 {
+        pub e: Option<E2>,
+    }
+    #[derive(Deserialize, Debug)]
+    pub struct NewInner(pub Inner);
+    #[derive(Deserialize, Debug)]
+    pub struct SNewNested {
+        pub t: NewInner,
+    }
+    #[derive(Deserialize, Debug)]
+    pub struct SOptOptless {
+        pub t: Option<Outer2>,
+    }
+    #[derive(Deserialize, Debug)]
+    pub struct Outer2 {
+        pub u: Option<Inner>,
+    }
+    #[derive(Deserialize, Debug)]
     pub struct SMap {
         pub m: BTreeMap<String, i64>,
     }
@@ -373,6 +403,12 @@ fn cmd_deerr(args: &Args) -> String {
         "enum2" => routes::<SEnum2>(text),
         "missing" => routes::<SMiss>(text),
         "opt" => routes::<SOpt>(text),
+        "optnested" => routes::<SOptNested>(text),
+        "optvec" => routes::<SOptVec>(text),
+        "optmap" => routes::<SOptMap>(text),
+        "optenum2" => routes::<SOptEnum2>(text),
+        "newnested" => routes::<SNewNested>(text),
+        "optopt" => routes::<SOptOptless>(text),
         "map" => routes::<SMap>(text),
         "deep" => routes::<Deep>(text),
         "tuple" => routes::<STuple>(text),
